@@ -88,11 +88,18 @@ def classify(msg):
                 return ['log']
             return ['order:' + METHOD_CLASS.get(other[2] if len(other) > 2 else '', 'life')]
         return ['other']
-    m = re.search(r'snap expected\(model\)=(\S+) :: (.*)$', msg)
+    m = re.search(r'snap (?:after=(\S*) )?expected\(model\)=(\S+) :: (.*)$', msg)
     if m:
-        a = dict(f.split('=', 1) for f in m.group(1).split('_')[2:] if '=' in f)
-        b = dict(f.split('=', 1) for f in m.group(2).split()[2:] if '=' in f)
-        return sorted('snap:' + k for k in set(a) | set(b) if a.get(k) != b.get(k)) or ['other']
+        a = dict(f.split('=', 1) for f in m.group(2).split('_')[2:] if '=' in f)
+        b = dict(f.split('=', 1) for f in m.group(3).split()[2:] if '=' in f)
+        cls = sorted('snap:' + k for k in set(a) | set(b) if a.get(k) != b.get(k)) or ['other']
+        # the state differs right after this operation: it unties the property that is about that operation too
+        after = m.group(1) or ''
+        if after in ('replay', 'replayenter'):
+            cls.append('ret:replay')
+        elif after in ('load', 'save'):
+            cls.append('ret:save')
+        return cls
     m = re.search(r'ret expected.* :: op \d+ (\w+)', msg)
     if m:
         return ['ret:' + m.group(1)] if 'ret:' + m.group(1) in RELEVANCE else ['other']
@@ -182,6 +189,11 @@ def EXTRA_SHAPES():
         # orthogonal region: unit arithmetic of BitArray views inside the registry
         (P('(C h1 i0 composite (L i0) (O h1 i0 (L i0) (L i0)) (O h1 i0 (L i0) (L i0) (L i0) (L i0) (L i0) (L i0) (L i0) (L i0)))'),
          [dict(), dict(bottomup=1, manual=1, log=2)]),
+        # utility regions nested in utility regions: a nested region's utility is its head's times that of the
+        # sub-state it would activate, on the change / utilize / randomize paths, headed and anonymous
+        (P('(C h1 i0 composite (L i0) (C h1 i0 utilitarian (L i0) (C h1 i0 random (L i0) (L i0) (C h1 i0 utilitarian (L i0) (L i0))) '
+           '(C h0 i0 random (L i0) (L i0))) (C h1 i0 random (C h1 i0 utilitarian (L i0) (L i0)) (L i0) (C h1 i0 random (L i0) (L i0))))'),
+         [dict(), dict(log=2, manual=1)]),
     ]
 
 
